@@ -140,7 +140,7 @@ def _models(draw, stratum):
     elif stratum == "colliding_arguments":
         # one formula shared by every [Pair] entry of a model, called with parameter lists that differ but collide
         # under a lossy key: hash(-1.0) == hash(-2.0), hash(1.0) == hash(2.0**61), hash(0.5) == hash(2.0**60),
-        # 3 == 3.0 (an int and a float), and lists that agree in all but the last parameter.  The history evaluates
+        # values of opposite sign, and lists that agree in all but the last parameter.  The history evaluates
         # the entries one after the other at the SAME separation (see _case)
         V = lambda nm: {"o": "var", "n": nm}
         fam = [[-1.0, -2.0], [1.0, 2.0 ** 61], [2.0 ** 60, 0.5], [-2.0, -1.0, 1.0], [3.0, 3.5], [2.5, -2.5]]
